@@ -4,6 +4,7 @@
 #include "main.hpp"
 #include "methods.hpp"
 #include "ref/ref.hpp"
+#include "boundary.hpp"
 #ifndef VF_NO_RC
 #include "gen.hpp"
 #endif
@@ -75,7 +76,7 @@ static Bytes replace_digest(Method m, const Bytes &H, const Bytes &repl) {
 
 // ---------------------------------------------------------------------------
 // C01: phrase, setting, repl
-static Verdict c01_check(const KV &c, Ctx &ctx) {
+static Verdict c01_check_raw(const KV &c, Ctx &ctx) {
   const Bytes &P = c.get("phrase"), &S = c.get("setting"), &repl = c.get("repl");
   if (P.size() >= 512 || memchr(P.data(), 0, P.size()) || memchr(S.data(), 0, S.size())) return "";
   Cost cost = decode_cost(S, P.size());
@@ -122,7 +123,7 @@ static Verdict c01_check(const KV &c, Ctx &ctx) {
 }
 
 // C06 as its own property: same case layout as C01
-static Verdict c06_check(const KV &c, Ctx &ctx) {
+static Verdict c06_check_raw(const KV &c, Ctx &ctx) {
   const Bytes &P = c.get("phrase"), &S = c.get("setting"), &repl = c.get("repl");
   if (P.size() >= 512 || memchr(P.data(), 0, P.size()) || memchr(S.data(), 0, S.size())) return "";
   Cost cost = decode_cost(S, P.size());
@@ -139,6 +140,9 @@ static Verdict c06_check(const KV &c, Ctx &ctx) {
   ctx.st.cls(std::string("c06-salt/") + METHOD_NAME[m] + "/" + c.get("cls"));
   return c06_checks(P, S, h.out, repl, ctx, true);
 }
+
+static Verdict c01_check(const KV &c, Ctx &ctx) { return ctx.filter_known("C01", c01_check_raw(c, ctx)); }
+static Verdict c06_check(const KV &c, Ctx &ctx) { return ctx.filter_known("C06", c06_check_raw(c, ctx)); }
 
 #include "h_hash_c02c03.inc"
 
@@ -171,11 +175,38 @@ static int c06_run(Ctx &ctx) {
 #define c03_run nullptr
 #endif
 
+// every method's settings at every total length around the size of the output field (exhaustive over that grid)
+static int boundary_grid(Ctx &ctx, Verdict (*check)(const KV &, Ctx &)) {
+  size_t idx = 0;
+  static const char *PH[] = {"", "pw", "a phrase of thirty-one characters"};
+  for (size_t L = BOUNDARY_LO; L <= BOUNDARY_HI; L++)
+    for (auto &bs : boundary_settings(L)) {
+      if ((idx++ % (size_t)ctx.nshards) != (size_t)ctx.shard) continue;
+      KV c;
+      c.set("phrase", PH[idx % 3]);
+      c.set("setting", bs.first);
+      c.set("repl", a64_fill(96, idx));
+      c.set("cls", "boundary/" + bs.second);
+      ctx.st.evaluations++;
+      ctx.current(c);
+      uint64_t before = ctx.st.nontrivial;
+      Verdict v = check(c, ctx);
+      if (!v.empty()) {
+        ctx.fail(c, v);
+        return 1;
+      }
+      ctx.st.cls(std::string("boundary-grid/") + (ctx.st.nontrivial > before ? "hashed/" : "rejected/") + bs.second.substr(0, bs.second.find('/')));
+    }
+  return 0;
+}
+static int c01_grid(Ctx &ctx) { return boundary_grid(ctx, c01_check); }
+static int c06_grid(Ctx &ctx) { return boundary_grid(ctx, c06_check); }
+
 static Prop PROPS[] = {
-  {"C01", c01_check, c01_run, nullptr},
+  {"C01", c01_check, c01_run, c01_grid},
   {"C02", c02_check, c02_run, nullptr},
   {"C03", c03_check, c03_run, nullptr},
-  {"C06", c06_check, c06_run, nullptr},
+  {"C06", c06_check, c06_run, c06_grid},
 };
 
 int main(int argc, char **argv) { return vf_main(argc, argv, PROPS, sizeof PROPS / sizeof *PROPS); }
